@@ -259,6 +259,75 @@ theorem step_single_refused_unchanged (c : Ctx α) (s : Iso α) (op : Op)
 
 /-! ### A.2 a refused combined conversion leaves exactly the completed prefix -/
 
+/-- the part of `convert(...)` after the pressure step -/
+def convTail (c : Ctx α) (s1 : Iso α) (lb lu mb mu : Option String) : Iso α × Outcome :=
+  let r2 := if truthy mb || truthy mu then convertMaterial c s1 mb mu else (s1, .ok)
+  match r2 with
+  | (s2, .err e) => (s2, .err e)
+  | (s2, .ok) => if truthy lb || truthy lu then convertLoading c s2 lb lu else (s2, .ok)
+
+lemma convertAll_eq_tail (c : Ctx α) (s : Iso α) (pm pu lb lu mb mu : Option String) :
+    convertAll c s pm pu lb lu mb mu =
+      match (if truthy pm || truthy pu then convertPressure c s pm pu else (s, .ok)) with
+      | (s1, .err e) => (s1, .err e)
+      | (s1, .ok) => convTail c s1 lb lu mb mu := rfl
+
+lemma convTail_refused (c : Ctx α) (s1 : Iso α) (lb lu mb mu : Option String) (e : Err)
+    (h : (convTail c s1 lb lu mb mu).2 = .err e) :
+    let doM := truthy mb || truthy mu
+    let doL := truthy lb || truthy lu
+    let s2 := if doM then (convertMaterial c s1 mb mu).1 else s1
+    let okM := doM = false ∨ (convertMaterial c s1 mb mu).2 = .ok
+    (doM = true ∧ (convertMaterial c s1 mb mu).2 = .err e ∧ (convertMaterial c s1 mb mu).1 = s1 ∧
+      (convTail c s1 lb lu mb mu).1 = s1) ∨
+    (okM ∧ doL = true ∧ (convertLoading c s2 lb lu).2 = .err e ∧ (convertLoading c s2 lb lu).1 = s2 ∧
+      (convTail c s1 lb lu mb mu).1 = s2) := by
+  intro doM doL s2 okM
+  have hM := convertMaterial_refused_unchanged c s1 mb mu
+  have hL := convertLoading_refused_unchanged c s2 lb lu
+  -- the state and outcome after the (optional) material step
+  have key : ∀ (sm : Iso α) (om : Outcome),
+      (if truthy mb || truthy mu then convertMaterial c s1 mb mu else (s1, .ok)) = (sm, om) →
+      (om = .ok → s2 = sm ∧ okM) ∧ (∀ e', om = .err e' → doM = true ∧ convertMaterial c s1 mb mu = (sm, .err e')) := by
+    intro sm om hr
+    by_cases dM : doM = true
+    · have hdm : (truthy mb || truthy mu) = true := dM
+      simp only [hdm, if_true] at hr
+      refine ⟨fun ho => ⟨?_, Or.inr ?_⟩, fun e' he => ⟨dM, ?_⟩⟩
+      · simp only [s2, dM, if_true, hr]
+      · rw [hr, ho]
+      · rw [hr, he]
+    · have hdm : (truthy mb || truthy mu) = false := by simpa [doM] using dM
+      simp only [hdm, Bool.false_eq_true, if_false, Prod.mk.injEq] at hr
+      obtain ⟨rfl, rfl⟩ := hr
+      refine ⟨fun _ => ⟨?_, Or.inl (by simpa [doM] using hdm)⟩, fun e' he => by cases he⟩
+      simp [s2, doM, hdm]
+  unfold convTail at h ⊢
+  simp only at h ⊢
+  cases hr : (if truthy mb || truthy mu then convertMaterial c s1 mb mu else (s1, .ok)) with
+  | mk sm om =>
+  obtain ⟨kok, kerr⟩ := key sm om hr
+  rw [hr] at h
+  cases om with
+  | err e' =>
+    left
+    obtain ⟨dM, hm⟩ := kerr e' rfl
+    simp only at h ⊢
+    cases h
+    rw [hm] at hM ⊢
+    exact ⟨dM, rfl, hM (by simp), hM (by simp)⟩
+  | ok =>
+    right
+    obtain ⟨hs2, hokM⟩ := kok rfl
+    simp only at h ⊢
+    by_cases dL : doL = true
+    · have hdl : (truthy lb || truthy lu) = true := dL
+      simp only [hdl, if_true] at h ⊢
+      rw [hs2] at hL ⊢
+      exact ⟨hokM, dL, h, hL (by rw [h]; simp), hL (by rw [h]; simp)⟩
+    · have hdl : (truthy lb || truthy lu) = false := by simpa [doL] using dL
+      simp [hdl] at h
+
 /-- `convert(...)` runs pressure, then material, then loading (each only if one of its two arguments is truthy).
 If it is refused with `e`, exactly one of the three sub-steps was the refusing one: all earlier sub-steps
 returned normally (or were skipped), the refusing sub-step itself changed nothing, and the resulting state is
@@ -283,63 +352,670 @@ theorem convertAll_refused_prefix (c : Ctx α) (s : Iso α) (pm pu lb lu mb mu :
       (convertAll c s pm pu lb lu mb mu).1 = s2) := by
   intro doP doM doL s1 s2 okP okM
   have hP := convertPressure_refused_unchanged c s pm pu
-  have hM := convertMaterial_refused_unchanged c s1 mb mu
-  have hL := convertLoading_refused_unchanged c s2 lb lu
-  unfold convertAll at h ⊢
-  by_cases dP : doP = true
-  · -- pressure runs
-    cases hp : convertPressure c s pm pu with
-    | mk sp op =>
-    cases op with
-    | err e' =>
-      left
-      have : (truthy pm || truthy pu) = true := dP
-      simp only [this, if_true, hp] at h ⊢
-      cases h
-      rw [hp] at hP
-      exact ⟨dP, rfl, hP (by simp), hP (by simp)⟩
-    | ok =>
-      right
-      have hdp : (truthy pm || truthy pu) = true := dP
-      have hs1 : s1 = sp := by simp only [s1, dP, if_true, hp]
-      have hokP : okP := Or.inr (by rw [hp])
-      by_cases dM : doM = true
-      · have hdm : (truthy mb || truthy mu) = true := dM
-        cases hm : convertMaterial c sp mb mu with
-        | mk sm om =>
-        cases om with
-        | err e' =>
-          left
-          simp only [hdp, if_true, hp, hdm, hm] at h ⊢
-          cases h
-          rw [hs1, hm] at hM
-          rw [hs1, hm]
-          exact ⟨hokP, dM, rfl, hM (by simp), hM (by simp)⟩
-        | ok =>
-          right
-          have hs2 : s2 = sm := by simp only [s2, dM, if_true, hs1, hm]
-          have hokM : okM := Or.inr (by rw [hs1, hm])
-          simp only [hdp, if_true, hp, hdm, hm] at h ⊢
-          by_cases dL : doL = true
-          · have hdl : (truthy lb || truthy lu) = true := dL
-            simp only [hdl, if_true] at h ⊢
-            rw [hs2] at hL ⊢
-            exact ⟨hokP, hokM, dL, h, hL (by rw [h]; simp), hL (by rw [h]; simp)⟩
-          · have hdl : (truthy lb || truthy lu) = false := by simpa [doL] using dL
-            simp [hdl] at h
-      · have hdm : (truthy mb || truthy mu) = false := by simpa [doM] using dM
-        right
-        have hs2 : s2 = sp := by simp only [s2, hs1]; simp [doM, hdm]
-        have hokM : okM := Or.inl (by simpa [doM] using hdm)
-        simp only [hdp, if_true, hp, hdm] at h ⊢
-        by_cases dL : doL = true
-        · have hdl : (truthy lb || truthy lu) = true := dL
-          simp only [hdl, if_true] at h ⊢
-          simp only [Bool.false_eq_true, if_false] at h ⊢
-          rw [hs2] at hL ⊢
-          exact ⟨hokP, hokM, dL, h, hL (by rw [h]; simp), hL (by rw [h]; simp)⟩
-        · have hdl : (truthy lb || truthy lu) = false := by simpa [doL] using dL
-          simp [hdl] at h
-  · sorry
+  rw [convertAll_eq_tail] at h ⊢
+  have key : ∀ (sp : Iso α) (op : Outcome),
+      (if truthy pm || truthy pu then convertPressure c s pm pu else (s, .ok)) = (sp, op) →
+      (op = .ok → s1 = sp ∧ okP) ∧ (∀ e', op = .err e' → doP = true ∧ convertPressure c s pm pu = (sp, .err e')) := by
+    intro sp op hr
+    by_cases dP : doP = true
+    · have hdp : (truthy pm || truthy pu) = true := dP
+      simp only [hdp, if_true] at hr
+      refine ⟨fun ho => ⟨?_, Or.inr ?_⟩, fun e' he => ⟨dP, ?_⟩⟩
+      · simp only [s1, dP, if_true, hr]
+      · rw [hr, ho]
+      · rw [hr, he]
+    · have hdp : (truthy pm || truthy pu) = false := by simpa [doP] using dP
+      simp only [hdp, Bool.false_eq_true, if_false, Prod.mk.injEq] at hr
+      obtain ⟨rfl, rfl⟩ := hr
+      refine ⟨fun _ => ⟨?_, Or.inl (by simpa [doP] using hdp)⟩, fun e' he => by cases he⟩
+      simp [s1, doP, hdp]
+  cases hr : (if truthy pm || truthy pu then convertPressure c s pm pu else (s, .ok)) with
+  | mk sp op =>
+  obtain ⟨kok, kerr⟩ := key sp op hr
+  rw [hr] at h
+  cases op with
+  | err e' =>
+    left
+    obtain ⟨dP, hp⟩ := kerr e' rfl
+    simp only at h ⊢
+    cases h
+    rw [hp] at hP ⊢
+    exact ⟨dP, rfl, hP (by simp), hP (by simp)⟩
+  | ok =>
+    right
+    obtain ⟨hs1, hokP⟩ := kok rfl
+    simp only at h ⊢
+    have ht := convTail_refused c sp lb lu mb mu e h
+    simp only at ht
+    have e2 : s2 = (if (truthy mb || truthy mu) = true then (convertMaterial c sp mb mu).1 else sp) := by
+      simp only [s2, hs1, doM]
+    rw [hs1, e2]
+    rcases ht with ⟨a, b, c', d⟩ | ⟨a, b, c', d, f⟩
+    · exact Or.inl ⟨hokP, a, b, c', d⟩
+    · exact Or.inr ⟨hokP, by simpa [okM, hs1, doM] using a, b, c', d, f⟩
+
+/-! ### A.3 rows are only ever rescaled; a rewritten column clears the caches -/
+
+lemma convTail_footprint (c : Ctx α) (s1 : Iso α) (lb lu mb mu : Option String) :
+    Footprint s1 (convTail c s1 lb lu mb mu).1 := by
+  unfold convTail
+  simp only
+  have hM : Footprint s1 (if truthy mb || truthy mu then convertMaterial c s1 mb mu else (s1, .ok)).1 := by
+    split
+    · exact convertMaterial_footprint ..
+    · exact Footprint.refl s1
+  cases hr : (if truthy mb || truthy mu then convertMaterial c s1 mb mu else (s1, .ok)) with
+  | mk sm om =>
+  rw [hr] at hM
+  cases om with
+  | err e => exact hM
+  | ok =>
+    simp only
+    split
+    · exact hM.trans (convertLoading_footprint ..)
+    · exact hM
+
+lemma convertAll_footprint (c : Ctx α) (s : Iso α) (pm pu lb lu mb mu : Option String) :
+    Footprint s (convertAll c s pm pu lb lu mb mu).1 := by
+  rw [convertAll_eq_tail]
+  have hP : Footprint s (if truthy pm || truthy pu then convertPressure c s pm pu else (s, .ok)).1 := by
+    split
+    · exact convertPressure_footprint ..
+    · exact Footprint.refl s
+  cases hr : (if truthy pm || truthy pu then convertPressure c s pm pu else (s, .ok)) with
+  | mk sp op =>
+  rw [hr] at hP
+  cases op with
+  | err e => exact hP
+  | ok => exact hP.trans (convTail_footprint ..)
+
+lemma step_footprint (c : Ctx α) (s : Iso α) (op : Op) : Footprint s (step c s op).1 := by
+  cases op with
+  | pressure m u => exact convertPressure_footprint c s m u
+  | loading b u => exact convertLoading_footprint c s b u
+  | material b u => exact convertMaterial_footprint c s b u
+  | temperature u => exact convertTemperature_footprint s u
+  | all pm pu lb lu mb mu => exact convertAll_footprint c s pm pu lb lu mb mu
+
+/-- every call — single or combined, successful or refused, any arguments — multiplies the whole pressure column
+by one factor and the whole loading column by one factor: rows are never added, dropped or reordered.
+(Branch marks, extra data columns and metadata are not part of the model state: no op can touch them.) -/
+theorem step_rows_scaled (c : Ctx α) (s : Iso α) (op : Op) :
+    ∃ f g : α, (step c s op).1.ps = s.ps.map (· * f) ∧ (step c s op).1.ls = s.ls.map (· * g) :=
+  (step_footprint c s op).scaled
+
+theorem step_lengths (c : Ctx α) (s : Iso α) (op : Op) :
+    (step c s op).1.ps.length = s.ps.length ∧ (step c s op).1.ls.length = s.ls.length := by
+  obtain ⟨f, g, h1, h2⟩ := step_rows_scaled c s op
+  rw [h1, h2]; simp
+
+theorem run_lengths (c : Ctx α) (s : Iso α) (ops : List Op) :
+    (run c s ops).ps.length = s.ps.length ∧ (run c s ops).ls.length = s.ls.length := by
+  induction ops generalizing s with
+  | nil => exact ⟨rfl, rfl⟩
+  | cons op ops ih =>
+    have h := step_lengths c s op
+    have := ih (step c s op).1
+    simp only [run, List.foldl_cons] at this ⊢
+    exact ⟨this.1.trans h.1, this.2.trans h.2⟩
+
+/-- whenever a call (any op, any arguments, successful or — for the combined call — refused half-way) has
+rewritten the pressure or the loading column, both cached interpolators have been dropped.
+(Stronger than asked: no `.ok` hypothesis is needed.) -/
+theorem successful_conversion_resets_caches (c : Ctx α) (s : Iso α) (op : Op)
+    (h : (step c s op).1.ps ≠ s.ps ∨ (step c s op).1.ls ≠ s.ls) :
+    (step c s op).1.lcache = false ∧ (step c s op).1.pcache = false :=
+  (step_footprint c s op).changed h
+
+/-- no call ever *creates* a cache: once cleared, the caches stay cleared -/
+theorem step_caches_monotone (c : Ctx α) (s : Iso α) (op : Op) :
+    (s.lcache = false → (step c s op).1.lcache = false) ∧ (s.pcache = false → (step c s op).1.pcache = false) :=
+  (step_footprint c s op).cachesMono
+
+/-- branch-level form: in every branch of the three data conversions that rewrites a column
+(i.e. that is not an early return, a refusal or the "virtual" material-unit relabelling) the caches are cleared -/
+theorem rewriting_branch_resets_caches (c : Ctx α) (s : Iso α) (m : String) (u : Option String) :
+    (∀ f, ¬(m = s.lab.pmode ∧ u = s.lab.punit) →
+        cPressure c.psat c.tempOk (1 : α) (some s.lab.pmode) (some m) s.lab.punit u = .ok f →
+        (pCore c s m u).1.lcache = false ∧ (pCore c s m u).1.pcache = false ∧ (pCore c s m u).1.ps = s.ps.map (· * f)) ∧
+    (∀ f, ¬(m = s.lab.lbasis ∧ u = s.lab.lunit) → ¬((isFrac s.lab.lbasis && m = s.lab.lbasis) = true) →
+        cLoading c.env (1 : α) (some s.lab.lbasis) (some m) s.lab.lunit u (some s.lab.mbasis) s.lab.munit = .ok f →
+        (lCore c s m u).1.lcache = false ∧ (lCore c s m u).1.pcache = false ∧ (lCore c s m u).1.ls = s.ls.map (· * f)) := by
+  refine ⟨fun f h1 h2 => ?_, fun f h1 h2 h3 => ?_⟩
+  · simp [pCore, h1, h2]
+  · simp only [Bool.and_eq_true, decide_eq_true_eq] at h2
+    simp [lCore, h1, h2, h3]
+
+/-! ## B. Typed single-step specifications -/
+
+/-- a full representation of a point isotherm: pressure, loading, material, temperature -/
+structure Rep where
+  p : PRep
+  l : LRep
+  m : MRep
+  t : TRep
+
+/-- labels of a pressure representation (relative modes store no unit) -/
+def pLabel : PRep → String × Option String
+  | .abs u => ("absolute", some u) | .rel _ => ("relative", none) | .relp _ => ("relative%", none)
+
+/-- stored temperature label (every Celsius spelling is normalised to `°C`) -/
+def tLabel : TRep → Option String
+  | .K => some "K" | .C _ => some "°C"
+
+/-- the labels that name a representation -/
+def labelsOf (r : Rep) : Labels :=
+  { pmode := (pLabel r.p).1, punit := (pLabel r.p).2,
+    lbasis := r.l.basis, lunit := r.l.unit,        -- `.phys b u ↦ (b.name, some u)`, `.frac ↦ ("fraction", none)`, `.pct ↦ ("percent", none)`
+    mbasis := r.m.b.name, munit := some r.m.u,
+    tunit := tLabel r.t }
+
+/-- the representation is supported: all three scales exist w.r.t. the generated tables, the temperature scale is
+K or the normalised `°C` -/
+def Rep.Valid (ps : α) (a : Ads α) (mat : Mat α) (r : Rep) : Prop :=
+  (r.p.scale Gen.pressureUnits ps).isSome ∧ (r.l.scale Gen.unitTable a r.m).isSome ∧
+  (r.m.grams Gen.unitTable mat).isSome ∧ (r.t = .K ∨ r.t = .C "°C")
+
+/-- Pa per stored pressure value / mol adsorbate per stored loading value / gram material per material unit
+(total versions of the scales; under `Rep.Valid` they are the actual, non-zero scales) -/
+def spOf (ps : α) (p : PRep) : α := (p.scale Gen.pressureUnits ps).getD 0
+def slOf (a : Ads α) (l : LRep) (m : MRep) : α := (l.scale Gen.unitTable a m).getD 0
+def gmOf (mat : Mat α) (m : MRep) : α := (m.grams Gen.unitTable mat).getD 0
+
+/-- canonical content of one stored pressure: Pa -/
+def canonP (ps : α) (r : Rep) (v : α) : α := v * spOf ps r.p
+/-- canonical content of one stored loading: mol adsorbate per gram material -/
+def canonL (a : Ads α) (mat : Mat α) (r : Rep) (v : α) : α := v * slOf a r.l r.m / gmOf mat r.m
+/-- canonical content of the stored temperature: K -/
+def kelvin (r : Rep) (v : α) : α := r.t.toK v
+
+/-! ### helpers -/
+
+lemma fac_isSome_lookup {t : List (String × Nat × Nat)} {u : String} (h : (fac t u : Option α).isSome) :
+    (t.lookup u).isSome := by
+  unfold fac at h; simpa using h
+
+lemma physScale_isSome_lookup {a : Ads α} {b : LB} {u : String} (h : (physScale Gen.unitTable a b u).isSome) :
+    ((Gen.unitTable b.table).lookup u).isSome := by
+  unfold physScale at h
+  by_cases hu : u = ""
+  · simp [hu] at h
+  · simp only [hu, if_false, Option.isSome_map] at h
+    exact fac_isSome_lookup h
+
+lemma grams_isSome_lookup {mat : Mat α} {m : MRep} (h : (m.grams Gen.unitTable mat).isSome) :
+    ((Gen.unitTable m.b.table).lookup m.u).isSome := by
+  unfold MRep.grams at h
+  by_cases hu : m.u = ""
+  · simp [hu] at h
+  · simp only [hu, if_false, Option.isSome_map] at h
+    exact fac_isSome_lookup h
+
+/-- **labels name a representation the constructor accepts** -/
+theorem validLabels_of_valid (ps : α) (a : Ads α) (mat : Mat α) (r : Rep) (h : Rep.Valid ps a mat r) :
+    validLabels (labelsOf r) = true := by
+  obtain ⟨hp, hl, hm, ht⟩ := h
+  obtain ⟨p, l, m, t⟩ := r
+  obtain ⟨mb, mu⟩ := m
+  have hmu := grams_isSome_lookup hm
+  simp only at hp hl hm ht hmu
+  have hP : (Gen.pressureMode.lookup (pLabel p).1).isSome = true := by cases p <;> rfl
+  have hL : (Gen.loadingMode.lookup l.basis).isSome = true := by
+    cases l with
+    | phys b u => cases b <;> rfl
+    | frac => rfl
+    | pct => rfl
+  have hM : Gen.materialMode.lookup mb.name = some (some mb.table) := by cases mb <;> rfl
+  have hT : t = .K ∨ t = .C "°C" := ht
+  unfold validLabels labelsOf
+  simp only [hP, hL, hM, Option.isSome_some, Bool.and_self, Bool.true_and, Bool.and_eq_true]
+  refine ⟨⟨?_, ?_⟩, ?_⟩
+  · cases p with
+    | abs u =>
+      simp only [Spec.PRep.scale] at hp
+      by_cases hu : u = ""
+      · simp [hu] at hp
+      · simp only [hu, if_false] at hp
+        simpa [pLabel] using fac_isSome_lookup hp
+    | rel u => rfl
+    | relp u => rfl
+  · cases l with
+    | frac => rfl
+    | pct => rfl
+    | phys b u =>
+      have h1 := physScale_isSome_lookup (a := a) hl
+      have hb : Gen.loadingMode.lookup b.name = some (some b.table) := by cases b <;> rfl
+      simp only [LRep.basis, LRep.unit, hb, h1, hmu, Bool.and_self, Bool.or_true]
+  · rcases hT with rfl | rfl <;> rfl
+
+lemma orCurrent_some {x cur : String} (hx : x ≠ "") : orCurrent (some x) cur = x := by
+  simp [orCurrent, hx]
+
+lemma PRep.mode_ne_empty (t : PRep) : t.mode ≠ "" := by cases t <;> simp [PRep.mode]
+
+/-- the canonical form of a pressure representation: relative modes carry no unit -/
+def canonPRep : PRep → PRep
+  | .abs u => .abs u | .rel _ => .rel none | .relp _ => .relp none
+
+lemma canonPRep_mode (a : PRep) : (canonPRep a).mode = (pLabel a).1 := by cases a <;> rfl
+lemma canonPRep_unit (a : PRep) : (canonPRep a).unit = (pLabel a).2 := by cases a <;> rfl
+lemma canonPRep_scale (ps : α) (a : PRep) :
+    (canonPRep a).scale Gen.pressureUnits ps = a.scale Gen.pressureUnits ps := by cases a <;> rfl
+
+lemma scale_ne_zero_gen (ps : α) (hps : ps ≠ 0) (a : PRep) (sa : α)
+    (ha : a.scale Gen.pressureUnits ps = some sa) : sa ≠ 0 := by
+  rw [C01.tables_eq_spec.1] at ha
+  exact C01.PRep.scale_ne_zero ps hps a sa ha
+
+/-- core of the typed pressure step: from labels naming `a`, a call whose resolved arguments are the mode and the
+unit of `b` (ANY `b` with a scale, canonical or not) succeeds, relabels to `b`, and multiplies by `sa / sb` -/
+lemma pCore_typed (ps : α) (hps : ps ≠ 0) (env : Env α) (s : Iso α) (a b : PRep) (sa sb : α)
+    (hm : s.lab.pmode = (pLabel a).1) (hu : s.lab.punit = (pLabel a).2)
+    (ha : a.scale Gen.pressureUnits ps = some sa) (hb : b.scale Gen.pressureUnits ps = some sb) :
+    (pCore ⟨some ps, env, true⟩ s b.mode b.unit).2 = .ok ∧
+    (pCore ⟨some ps, env, true⟩ s b.mode b.unit).1.lab = { s.lab with pmode := (pLabel b).1, punit := (pLabel b).2 } ∧
+    (pCore ⟨some ps, env, true⟩ s b.mode b.unit).1.ls = s.ls ∧
+    (pCore ⟨some ps, env, true⟩ s b.mode b.unit).1.temp = s.temp ∧
+    (pCore ⟨some ps, env, true⟩ s b.mode b.unit).1.ps = s.ps.map (· * (sa / sb)) := by
+  have hsa := scale_ne_zero_gen ps hps a sa ha
+  have hspec := cPressure_spec ps (1 : α) hps (canonPRep a) b sa sb (by rw [canonPRep_scale]; exact ha) hb
+  rw [canonPRep_mode, canonPRep_unit, ← hm, ← hu] at hspec
+  unfold pCore
+  by_cases he : b.mode = s.lab.pmode ∧ b.unit = s.lab.punit
+  · -- early return: `b` is the current representation
+    have hab : sa = sb ∧ (pLabel b).1 = s.lab.pmode ∧ (pLabel b).2 = s.lab.punit := by
+      obtain ⟨h1, h2⟩ := he
+      rw [hm] at h1 ⊢; rw [hu] at h2 ⊢
+      cases a <;> cases b <;> simp [PRep.mode, PRep.unit, pLabel] at h1 h2 ⊢
+      all_goals (simp only [Spec.PRep.scale] at ha hb)
+      · subst h2; rw [ha] at hb; exact ⟨Option.some.inj hb, rfl⟩
+      · rw [ha] at hb; exact Option.some.inj hb
+      · rw [ha] at hb; exact Option.some.inj hb
+    obtain ⟨rfl, h1, h2⟩ := hab
+    simp only [he, and_self, if_true, h1, h2, true_and]
+    simp [hsa]
+  · simp only [he, if_false, hspec]
+    refine ⟨trivial, ?_, trivial, trivial, ?_⟩
+    · have : (if b.unit ≠ s.lab.punit ∧ b.mode = "absolute" then b.unit else none) = (pLabel b).2 := by
+        rw [hm, hu] at he
+        rw [hu]
+        cases a <;> cases b <;> simp [PRep.mode, PRep.unit, pLabel] at he ⊢
+        exact he
+      simp only [this]
+      cases b <;> rfl
+    · simp only [one_mul]
+
+/-- replace the (ignored) unit label of a relative representation -/
+def withUnit : PRep → Option String → PRep
+  | .abs u, _ => .abs u | .rel _, x => .rel x | .relp _, x => .relp x
+
+lemma withUnit_mode (t : PRep) (x) : (withUnit t x).mode = t.mode := by cases t <;> rfl
+lemma withUnit_label (t : PRep) (x) : pLabel (withUnit t x) = pLabel t := by cases t <;> rfl
+lemma withUnit_scale (ps : α) (t : PRep) (x) :
+    (withUnit t x).scale Gen.pressureUnits ps = t.scale Gen.pressureUnits ps := by cases t <;> rfl
+lemma withUnit_unit (ps : α) (t : PRep) (st : α) (ht : t.scale Gen.pressureUnits ps = some st)
+    (same : Bool) (cur : Option String) :
+    (withUnit t (unitArg t.unit same cur)).unit = unitArg t.unit same cur := by
+  cases t with
+  | abs u =>
+    have hu : u ≠ "" := by
+      intro h; simp [Spec.PRep.scale, h] at ht
+    simp [withUnit, PRep.unit, unitArg, truthy, hu]
+  | rel x => rfl
+  | relp x => rfl
+
+/-- **typed pressure step**: from a state whose labels name `r`, for ANY supported target `t : PRep` (canonical or
+not — a unit given with a relative mode is ignored) `convert_pressure(t.mode, t.unit)` returns normally, the labels
+name `{r with p := t}`, loading and temperature are untouched and every pressure is multiplied by `sp r.p / sp t`
+(Pa per old unit over Pa per new unit): the stored column is the old column converted directly. -/
+theorem convertPressure_typed (ps : α) (hps : ps ≠ 0) (env : Env α) (s : Iso α) (r : Rep) (t : PRep) (sp st : α)
+    (hs : s.lab = labelsOf r)
+    (hsp : r.p.scale Gen.pressureUnits ps = some sp) (hst : t.scale Gen.pressureUnits ps = some st) :
+    (convertPressure ⟨some ps, env, true⟩ s (some t.mode) t.unit).2 = .ok ∧
+    (convertPressure ⟨some ps, env, true⟩ s (some t.mode) t.unit).1.lab = labelsOf { r with p := t } ∧
+    (convertPressure ⟨some ps, env, true⟩ s (some t.mode) t.unit).1.ls = s.ls ∧
+    (convertPressure ⟨some ps, env, true⟩ s (some t.mode) t.unit).1.temp = s.temp ∧
+    (convertPressure ⟨some ps, env, true⟩ s (some t.mode) t.unit).1.ps = s.ps.map (· * (sp / st)) := by
+  rw [convertPressure_core, orCurrent_some (PRep.mode_ne_empty t)]
+  set x := unitArg t.unit (decide (t.mode = s.lab.pmode)) s.lab.punit with hx
+  have h := pCore_typed ps hps env s r.p (withUnit t x) sp st (by rw [hs]; rfl) (by rw [hs]; rfl) hsp
+    (by rw [withUnit_scale]; exact hst)
+  rw [withUnit_mode, hx, withUnit_unit ps t st hst, ← hx, withUnit_label] at h
+  obtain ⟨h1, h2, h3, h4, h5⟩ := h
+  refine ⟨h1, ?_, h3, h4, h5⟩
+  rw [h2, hs]; rfl
+
+/-! ### loading -/
+
+lemma LRep.ext_labels {l1 l2 : LRep} (hb : l1.basis = l2.basis) (hu : l1.unit = l2.unit) : l1 = l2 := by
+  cases l1 with
+  | phys b1 u1 =>
+    cases l2 with
+    | phys b2 u2 =>
+      simp only [LRep.unit, Option.some.injEq] at hu
+      subst hu
+      cases b1 <;> cases b2 <;> simp [LRep.basis, Spec.LB.name] at hb ⊢
+    | frac => cases b1 <;> simp [LRep.basis, Spec.LB.name] at hb
+    | pct => cases b1 <;> simp [LRep.basis, Spec.LB.name] at hb
+  | frac =>
+    cases l2 with
+    | phys b2 u2 => simp [LRep.unit] at hu
+    | frac => rfl
+    | pct => simp [LRep.basis] at hb
+  | pct =>
+    cases l2 with
+    | phys b2 u2 => simp [LRep.unit] at hu
+    | frac => simp [LRep.basis] at hb
+    | pct => rfl
+
+lemma LRep.basis_ne_empty (l : LRep) : l.basis ≠ "" := by
+  cases l with
+  | phys b u => cases b <;> simp [LRep.basis, Spec.LB.name]
+  | frac => simp [LRep.basis]
+  | pct => simp [LRep.basis]
+
+lemma LRep.isFrac_basis (l : LRep) : isFrac l.basis = true ↔ l.unit = none := by
+  cases l with
+  | phys b u => cases b <;> simp [LRep.basis, LRep.unit, Spec.LB.name, isFrac]
+  | frac => simp [LRep.basis, LRep.unit, isFrac]
+  | pct => simp [LRep.basis, LRep.unit, isFrac]
+
+lemma lscale_ne_zero_gen (a : Ads α) (hp : a.Pos) (m : MRep) (l : LRep) (sl : α)
+    (h : l.scale Gen.unitTable a m = some sl) : sl ≠ 0 := by
+  rw [C01.unitTable_eq_spec] at h
+  exact C01.LRep.scale_ne_zero a hp m l sl h
+
+lemma grams_ne_zero_gen (mat : Mat α) (hp : Mat.Pos mat) (m : MRep) (g : α)
+    (h : m.grams Gen.unitTable mat = some g) : g ≠ 0 := by
+  rw [C01.unitTable_eq_spec] at h
+  exact C01.MRep.grams_ne_zero mat hp m g h
+
+/-- core of the typed loading step -/
+lemma lCore_typed (a : Ads α) (mat : Mat α) (hc : a.Consistent) (hp : a.Pos) (psat : Option α) (tOk : Bool)
+    (s : Iso α) (m : MRep) (l1 l2 : LRep) (s1 s2 : α)
+    (hb : s.lab.lbasis = l1.basis) (hu : s.lab.lunit = l1.unit)
+    (hmb : s.lab.mbasis = m.b.name) (hmu : s.lab.munit = some m.u)
+    (h1 : l1.scale Gen.unitTable a m = some s1) (h2 : l2.scale Gen.unitTable a m = some s2) :
+    (lCore ⟨psat, envOf a mat, tOk⟩ s l2.basis l2.unit).2 = .ok ∧
+    (lCore ⟨psat, envOf a mat, tOk⟩ s l2.basis l2.unit).1.lab = { s.lab with lbasis := l2.basis, lunit := l2.unit } ∧
+    (lCore ⟨psat, envOf a mat, tOk⟩ s l2.basis l2.unit).1.ps = s.ps ∧
+    (lCore ⟨psat, envOf a mat, tOk⟩ s l2.basis l2.unit).1.temp = s.temp ∧
+    (lCore ⟨psat, envOf a mat, tOk⟩ s l2.basis l2.unit).1.ls = s.ls.map (· * (s1 / s2)) := by
+  have hs1 := lscale_ne_zero_gen a hp m l1 s1 h1
+  have hspec := cLoading_spec a mat hc hp (1 : α) m l1 l2 s1 s2 h1 h2
+  rw [← hb, ← hu, ← hmb, ← hmu] at hspec
+  unfold lCore
+  by_cases he : l2.basis = s.lab.lbasis ∧ l2.unit = s.lab.lunit
+  · have : l2 = l1 := LRep.ext_labels (he.1.trans hb) (he.2.trans hu)
+    subst this
+    rw [h1] at h2; cases h2
+    simp only [he, and_self, if_true, true_and]
+    simp [hs1]
+  · have he2 : ¬((isFrac s.lab.lbasis && decide (l2.basis = s.lab.lbasis)) = true) := by
+      intro h
+      simp only [Bool.and_eq_true, decide_eq_true_eq] at h
+      apply he
+      refine ⟨h.2, ?_⟩
+      have e1 : l1.unit = none := (LRep.isFrac_basis l1).1 (by rw [← hb]; exact h.1)
+      have e2 : l2.unit = none := (LRep.isFrac_basis l2).1 (by rw [h.2]; exact h.1)
+      rw [hu, e1, e2]
+    simp only [he, if_false, he2, hspec, Bool.false_eq_true]
+    refine ⟨trivial, ?_, trivial, trivial, ?_⟩
+    · have : (if isFrac l2.basis = true then none else l2.unit) = l2.unit := by
+        by_cases hf : isFrac l2.basis = true
+        · simp [hf, (LRep.isFrac_basis l2).1 hf]
+        · simp [hf]
+      simp only [this]
+    · simp only [one_mul]
+
+lemma unitArg_loading (a : Ads α) (m : MRep) (l1 l2 : LRep) (s2 : α)
+    (h2 : l2.scale Gen.unitTable a m = some s2) :
+    unitArg l2.unit (decide (l2.basis = l1.basis)) l1.unit = l2.unit := by
+  cases l2 with
+  | phys b u =>
+    have hu : u ≠ "" := (physScale_inv (by simpa [LRep.scale] using h2)).1
+    simp [unitArg, LRep.unit, truthy, hu]
+  | frac =>
+    by_cases hb : LRep.frac.basis = l1.basis
+    · have : l1.unit = none := (LRep.isFrac_basis l1).1 (by rw [← hb]; rfl)
+      show unitArg none _ l1.unit = none
+      rw [this]; simp [unitArg]
+    · show unitArg none _ l1.unit = none
+      simp [unitArg, truthy, hb]
+  | pct =>
+    by_cases hb : LRep.pct.basis = l1.basis
+    · have : l1.unit = none := (LRep.isFrac_basis l1).1 (by rw [← hb]; rfl)
+      show unitArg none _ l1.unit = none
+      rw [this]; simp [unitArg]
+    · show unitArg none _ l1.unit = none
+      simp [unitArg, truthy, hb]
+
+/-- **typed loading step**: from a state whose labels name `r`, for any supported target `l : LRep` (its scale taken
+w.r.t. the current material representation) `convert_loading(l.basis, l.unit)` returns normally, the labels name
+`{r with l := l}`, pressure and temperature are untouched and every loading is multiplied by `sl r.l / sl l`
+(mol adsorbate per old unit over mol per new unit). -/
+theorem convertLoading_typed (a : Ads α) (mat : Mat α) (hc : a.Consistent) (hp : a.Pos) (psat : Option α) (tOk : Bool)
+    (s : Iso α) (r : Rep) (l : LRep) (sl sl' : α) (hs : s.lab = labelsOf r)
+    (hsl : r.l.scale Gen.unitTable a r.m = some sl) (hsl' : l.scale Gen.unitTable a r.m = some sl') :
+    (convertLoading ⟨psat, envOf a mat, tOk⟩ s (some l.basis) l.unit).2 = .ok ∧
+    (convertLoading ⟨psat, envOf a mat, tOk⟩ s (some l.basis) l.unit).1.lab = labelsOf { r with l := l } ∧
+    (convertLoading ⟨psat, envOf a mat, tOk⟩ s (some l.basis) l.unit).1.ps = s.ps ∧
+    (convertLoading ⟨psat, envOf a mat, tOk⟩ s (some l.basis) l.unit).1.temp = s.temp ∧
+    (convertLoading ⟨psat, envOf a mat, tOk⟩ s (some l.basis) l.unit).1.ls = s.ls.map (· * (sl / sl')) := by
+  rw [convertLoading_core, orCurrent_some (LRep.basis_ne_empty l)]
+  have e1 : s.lab.lbasis = r.l.basis := by rw [hs]; rfl
+  have e2 : s.lab.lunit = r.l.unit := by rw [hs]; rfl
+  rw [e1, e2, unitArg_loading a r.m r.l l sl' hsl']
+  obtain ⟨h1, h2, h3, h4, h5⟩ := lCore_typed a mat hc hp psat tOk s r.m r.l l sl sl' e1 e2
+    (by rw [hs]; rfl) (by rw [hs]; rfl) hsl hsl'
+  refine ⟨h1, ?_, h3, h4, h5⟩
+  rw [h2, hs]; rfl
+
+/-! ### material -/
+
+lemma MB.name_inj {b1 b2 : MB} (h : b1.name = b2.name) : b1 = b2 := by
+  cases b1 <;> cases b2 <;> simp [Spec.MB.name] at h ⊢
+
+lemma MB.name_ne_empty (b : MB) : b.name ≠ "" := by cases b <;> simp [Spec.MB.name]
+
+lemma volLiq_name (b : MB) : volLiq b.name = b.toLB.name := by cases b <;> rfl
+
+/-- the material's own basis and unit always give a loading scale (same unit table) -/
+lemma own_scale_of_grams (a : Ads α) (mat : Mat α) (m2 : MRep) (g2 : α)
+    (hg2 : m2.grams Gen.unitTable mat = some g2) :
+    ∃ p : α, physScale Gen.unitTable a m2.b.toLB m2.u = some p := by
+  unfold MRep.grams at hg2
+  unfold physScale
+  by_cases hu : m2.u = ""
+  · simp [hu] at hg2
+  · simp only [hu, if_false, Option.map_eq_some_iff] at hg2 ⊢
+    obtain ⟨f, hf, _⟩ := hg2
+    have : m2.b.toLB.table = m2.b.table := by cases m2.b <;> rfl
+    rw [this]
+    exact ⟨_, f, hf, rfl⟩
+
+/-- a fraction / percent loading has a scale w.r.t. every supported material representation; a physical one does not
+depend on it -/
+lemma lscale_of_grams (a : Ads α) (mat : Mat α) (l : LRep) (m1 m2 : MRep) (sl1 g2 : α)
+    (hl1 : l.scale Gen.unitTable a m1 = some sl1) (hg2 : m2.grams Gen.unitTable mat = some g2) :
+    ∃ sl2 : α, l.scale Gen.unitTable a m2 = some sl2 := by
+  have key := own_scale_of_grams a mat m2 g2 hg2
+  cases l with
+  | phys b u => exact ⟨sl1, hl1⟩
+  | frac => exact key
+  | pct => obtain ⟨p, hp⟩ := key; exact ⟨p / 100, by simp [LRep.scale, hp]⟩
+
+/-- fraction / percent scales: the physical scale of the material's own basis and unit, times 1 or 1/100 -/
+lemma fracScale (a : Ads α) (l : LRep) (hf : isFrac l.basis = true) :
+    ∃ k : α, k ≠ 0 ∧ ∀ (m : MRep) (sl : α), l.scale Gen.unitTable a m = some sl →
+      ∃ p : α, physScale Gen.unitTable a m.b.toLB m.u = some p ∧ sl = p * k := by
+  cases l with
+  | phys b u => cases b <;> simp [LRep.basis, Spec.LB.name, isFrac] at hf
+  | frac => exact ⟨1, one_ne_zero, fun m sl h => ⟨sl, h, by ring⟩⟩
+  | pct =>
+    refine ⟨1 / 100, by norm_num, fun m sl h => ?_⟩
+    simp only [LRep.scale, Option.map_eq_some_iff] at h
+    obtain ⟨p, hp, rfl⟩ := h
+    exact ⟨p, hp, by ring⟩
+
+/-- a physical loading scale does not depend on the material representation -/
+lemma physScale_indep (a : Ads α) (l : LRep) (hf : ¬ isFrac l.basis = true) (m1 m2 : MRep) :
+    l.scale Gen.unitTable a m1 = l.scale Gen.unitTable a m2 := by
+  cases l with
+  | phys b u => rfl
+  | frac => simp [LRep.basis, isFrac] at hf
+  | pct => simp [LRep.basis, isFrac] at hf
+
+/-- (mol adsorbate per unit) / (gram material per unit) of the material's own basis does not depend on the unit -/
+lemma own_ratio (a : Ads α) (mat : Mat α) (hmp : Mat.Pos mat) (m : MRep) (p g : α)
+    (hp : physScale Gen.unitTable a m.b.toLB m.u = some p) (hg : m.grams Gen.unitTable mat = some g) :
+    p / g = gL a m.b.toLB / gM mat m.b := by
+  obtain ⟨_, f, hf, rfl, hn⟩ := physScale_inv hp
+  obtain ⟨_, f', hf', rfl, hn', hgm⟩ := grams_inv hmp hg
+  have : m.b.toLB.table = m.b.table := by cases m.b <;> rfl
+  rw [this, hf'] at hf
+  cases hf
+  field_simp
+
+/-- core of the typed material step -/
+lemma mCore_typed (a : Ads α) (mat : Mat α) (hc : a.Consistent) (hp : a.Pos) (hmp : Mat.Pos mat)
+    (psat : Option α) (tOk : Bool) (s : Iso α) (l : LRep) (m1 m2 : MRep) (g1 g2 sl1 sl2 : α)
+    (hb : s.lab.lbasis = l.basis) (hmb : s.lab.mbasis = m1.b.name) (hmu : s.lab.munit = some m1.u)
+    (hg1 : m1.grams Gen.unitTable mat = some g1) (hg2 : m2.grams Gen.unitTable mat = some g2)
+    (hl1 : l.scale Gen.unitTable a m1 = some sl1) (hl2 : l.scale Gen.unitTable a m2 = some sl2) :
+    (mCore ⟨psat, envOf a mat, tOk⟩ s m2.b.name (some m2.u)).2 = .ok ∧
+    (mCore ⟨psat, envOf a mat, tOk⟩ s m2.b.name (some m2.u)).1.lab =
+      { s.lab with mbasis := m2.b.name, munit := some m2.u } ∧
+    (mCore ⟨psat, envOf a mat, tOk⟩ s m2.b.name (some m2.u)).1.ps = s.ps ∧
+    (mCore ⟨psat, envOf a mat, tOk⟩ s m2.b.name (some m2.u)).1.temp = s.temp ∧
+    (mCore ⟨psat, envOf a mat, tOk⟩ s m2.b.name (some m2.u)).1.ls = s.ls.map (· * ((sl1 / g1) / (sl2 / g2))) := by
+  have hg1n := grams_ne_zero_gen mat hmp m1 g1 hg1
+  have hg2n := grams_ne_zero_gen mat hmp m2 g2 hg2
+  have hs1n := lscale_ne_zero_gen a hp m1 l sl1 hl1
+  have hs2n := lscale_ne_zero_gen a hp m2 l sl2 hl2
+  have hspecM := cMaterial_spec a mat hmp (1 : α) m1 m2 g1 g2 hg1 hg2
+  rw [← hmb, ← hmu] at hspecM
+  unfold mCore
+  by_cases he : m2.b.name = s.lab.mbasis ∧ some m2.u = s.lab.munit
+  · -- early return: same representation
+    have : m2 = m1 := by
+      obtain ⟨b2, u2⟩ := m2
+      obtain ⟨b1, u1⟩ := m1
+      obtain ⟨h1, h2⟩ := he
+      simp only at h1 h2 hmb hmu
+      rw [hmb] at h1; rw [hmu] at h2
+      cases MB.name_inj h1
+      cases h2
+      rfl
+    subst this
+    rw [hg1] at hg2; cases hg2
+    rw [hl1] at hl2; cases hl2
+    have hk : sl1 / g1 / (sl1 / g1) = 1 := div_self (div_ne_zero hs1n hg1n)
+    simp only [he, and_self, if_true, true_and, hk]
+    simp
+  · by_cases hv : (isFrac s.lab.lbasis && decide (m2.b.name = s.lab.mbasis)) = true
+    · -- "virtual" unit change under a fraction / percent loading
+      simp only [he, if_false, hv, if_true, hspecM]
+      simp only [Bool.and_eq_true, decide_eq_true_eq] at hv
+      obtain ⟨hf, hsame⟩ := hv
+      refine ⟨trivial, ?_, trivial, trivial, ?_⟩
+      · rw [hsame]
+      · rw [hb] at hf
+        obtain ⟨k, hk, hkey⟩ := fracScale a l hf
+        obtain ⟨p1, hp1, rfl⟩ := hkey m1 sl1 hl1
+        obtain ⟨p2, hp2, rfl⟩ := hkey m2 sl2 hl2
+        have hbb : m2.b = m1.b := MB.name_inj (hsame.trans hmb)
+        have r1 := own_ratio a mat hmp m1 p1 g1 hp1 hg1
+        have r2 := own_ratio a mat hmp m2 p2 g2 hp2 hg2
+        rw [hbb] at r2
+        have hp1n : p1 ≠ 0 := left_ne_zero_of_mul hs1n
+        have : p1 * k / g1 / (p2 * k / g2) = 1 := by
+          have e1 : p1 * k / g1 = (p1 / g1) * k := by ring
+          have e2 : p2 * k / g2 = (p2 / g2) * k := by ring
+          rw [e1, e2, r1, r2, ← r1]
+          exact div_self (mul_ne_zero (div_ne_zero hp1n hg1n) hk)
+        rw [this]; simp
+    · simp only [he, if_false, hv, hspecM, Bool.false_eq_true]
+      simp only [Bool.and_eq_true, decide_eq_true_eq, not_and] at hv
+      by_cases hf : isFrac s.lab.lbasis = true
+      · -- fraction / percent loading, material basis changes
+        simp only [hf, if_true]
+        rw [hb] at hf
+        obtain ⟨k, hk, hkey⟩ := fracScale a l hf
+        obtain ⟨p1, hp1, rfl⟩ := hkey m1 sl1 hl1
+        obtain ⟨p2, hp2, rfl⟩ := hkey m2 sl2 hl2
+        have hspecL := cLoading_phys a mat hc hp (1 : α) m1.b.toLB m2.b.toLB m1.u m2.u none none p1 p2 hp1 hp2
+        rw [hmb, hmu, volLiq_name, volLiq_name, hspecL]
+        have hp2n : p2 ≠ 0 := left_ne_zero_of_mul hs2n
+        refine ⟨rfl, rfl, rfl, rfl, ?_⟩
+        show List.map (fun x => x * (1 * g2 / g1) * (1 * p1 / p2)) s.ls = _
+        congr 1; funext x; field_simp
+      · -- physical loading
+        simp only [hf, if_false, Bool.false_eq_true]
+        rw [hb] at hf
+        rw [physScale_indep a l hf m1 m2, hl2] at hl1
+        cases hl1
+        refine ⟨trivial, trivial, trivial, trivial, ?_⟩
+        congr 1; funext x; field_simp
+
+/-- **typed material step**: from a state whose labels name `r`, for any supported target `m : MRep`
+`convert_material(m.b.name, m.u)` returns normally, the labels name `{r with m := m}` (under a fraction / percent
+loading the `LRep` stays, but its scale is now taken w.r.t. `m`), pressure and temperature are untouched and every
+loading is multiplied by the ratio of the canonical contents `(sl / g) / (sl' / g')` (mol adsorbate per gram
+material of one old stored unit over that of one new stored unit). -/
+theorem convertMaterial_typed (a : Ads α) (mat : Mat α) (hc : a.Consistent) (hp : a.Pos) (hmp : Mat.Pos mat)
+    (psat : Option α) (tOk : Bool) (s : Iso α) (r : Rep) (m : MRep) (sl g sl' g' : α) (hs : s.lab = labelsOf r)
+    (hsl : r.l.scale Gen.unitTable a r.m = some sl) (hg : r.m.grams Gen.unitTable mat = some g)
+    (hsl' : r.l.scale Gen.unitTable a m = some sl') (hg' : m.grams Gen.unitTable mat = some g') :
+    (convertMaterial ⟨psat, envOf a mat, tOk⟩ s (some m.b.name) (some m.u)).2 = .ok ∧
+    (convertMaterial ⟨psat, envOf a mat, tOk⟩ s (some m.b.name) (some m.u)).1.lab = labelsOf { r with m := m } ∧
+    (convertMaterial ⟨psat, envOf a mat, tOk⟩ s (some m.b.name) (some m.u)).1.ps = s.ps ∧
+    (convertMaterial ⟨psat, envOf a mat, tOk⟩ s (some m.b.name) (some m.u)).1.temp = s.temp ∧
+    (convertMaterial ⟨psat, envOf a mat, tOk⟩ s (some m.b.name) (some m.u)).1.ls =
+      s.ls.map (· * ((sl / g) / (sl' / g'))) := by
+  rw [convertMaterial_core, orCurrent_some (MB.name_ne_empty m.b)]
+  have hu : m.u ≠ "" := (grams_inv hmp hg').1
+  have e : ∀ same cur, unitArg (some m.u) same cur = some m.u := by
+    intro same cur; simp [unitArg, truthy, hu]
+  rw [e]
+  obtain ⟨h1, h2, h3, h4, h5⟩ := mCore_typed a mat hc hp hmp psat tOk s r.l r.m m g g' sl sl'
+    (by rw [hs]; rfl) (by rw [hs]; rfl) (by rw [hs]; rfl) hg hg' hsl hsl'
+  refine ⟨h1, ?_, h3, h4, h5⟩
+  rw [h2, hs]; rfl
+
+/-! ### temperature -/
+
+/-- the temperature scale as stored: every Celsius spelling becomes `°C` -/
+def normT : TRep → TRep
+  | .K => .K | .C _ => .C "°C"
+
+lemma tLabel_normT (t : TRep) : tLabel (normT t) = tLabel t := by cases t <;> rfl
+
+/-- **typed temperature step**: for every accepted spelling of the target scale the call returns normally, the label
+is the normalised one, the columns are untouched, the new value is the old one converted through Kelvin — hence the
+Kelvin value is conserved. -/
+theorem convertTemperature_typed (s : Iso α) (r : Rep) (t : TRep) (hs : s.lab = labelsOf r)
+    (hrt : r.t = .K ∨ r.t = .C "°C") (ht : TRep.Valid t) :
+    (convertTemperature s (some t.label)).2 = .ok ∧
+    (convertTemperature s (some t.label)).1.lab = labelsOf { r with t := normT t } ∧
+    (convertTemperature s (some t.label)).1.ps = s.ps ∧
+    (convertTemperature s (some t.label)).1.ls = s.ls ∧
+    (convertTemperature s (some t.label)).1.temp = t.ofK (r.t.toK s.temp) ∧
+    (normT t).toK (convertTemperature s (some t.label)).1.temp = r.t.toK s.temp := by
+  have hv : TRep.Valid r.t := by
+    rcases hrt with h | h <;> rw [h]
+    · trivial
+    · exact ⟨by decide, by decide⟩
+  have hl : s.lab.tunit = some r.t.label := by
+    rw [hs]; rcases hrt with h | h <;> rw [labelsOf, h] <;> rfl
+  have hspec := cTemperature_spec s.temp r.t t hv ht
+  rw [← hl] at hspec
+  have hn : normTemp (some t.label) = tLabel t := by
+    rw [normTemp_label t ht]; cases t <;> rfl
+  unfold convertTemperature
+  simp only [hspec, hn]
+  refine ⟨trivial, ?_, trivial, trivial, trivial, ?_⟩
+  · rw [hs]; simp only [labelsOf, tLabel_normT]
+  · cases t <;> simp [normT, Spec.TRep.toK, Spec.TRep.ofK]
 
 end PgVerif.C02
